@@ -34,13 +34,14 @@ REQUIRED_THEOREMS = ["shunt_errors_are_syntax", "eval_plain_no_internal", "pySyn
                      "formula_spec_internal", "leaves_accepted_by_to_factor", "feature_flag_names_denote",
                      "feature_flag_aliases", "api_tables_live", "first_error_any_order", "evaluates_iff_no_failing_node",
                      "alias_loop_terminates", "normaliser_fails_only_with_syntax_error", "internal_error_down_to_format_expr",
-                     "simplify_fuel_suffices"]
+                     "simplify_fuel_suffices", "power_stable", "power_stable_any", "power_capped",
+                     "plain_ops_keep_distinct_factors", "power_capped_plain"]
 TRUSTED = list(c01.TRUSTED) + [
     "Gen/ParseApi.lean (regenerated on every run): FormulaParser.Target members, FeatureFlags members and aliases, CONTEXT_OPENERS/CLOSERS, Token.to_factor's kind map (probed by calling it)",
     "format_expr (ast.parse / ast.unparse) is the only piece of sanitize_python_code that is NOT modelled: its result on the expression the model's own sanitize_variable_names produces enters as per-case data (keyed by that expression, computed with the real code: a different expression is a disagreement); str.isspace of the string's characters enters as data; the alias pass and the restoration are the model shared with C15 (Model/PyAlias.lean: ASCII word classes, keyword.kwlist and the alias template read from the live package by the translator)",
 ]
 ASSUMPTIONS = [
-    "exponent literals of two or more digits: the Lean model expands the n-fold product literally and is not run on them; they are covered by the `bigexp` oracle stream (outcome class, termination, same result as the exponent-5 twin) on the implementation only",
+    "exponent literals of two or more digits: the Lean model expands the n-fold product literally and is not run on them; that the literal expansion equals the code's capped one (min(n, max(#terms, 1)) copies) as an ORDERED term set is a theorem (power_capped, from power_stable) for terms with distinct factors — the invariant of Term.__init__, a hypothesis (Term.WF) in the model that every non-structural operator keeps (plain_ops_keep_distinct_factors) and that is discharged for bases of the arithmetic fragment (power_capped_plain), not for bases evaluated through structured values; on the implementation they are covered by the `bigexp` oracle stream (outcome class, termination, same result as the exponent-5 twin)",
     "the interpreter's recursion limit is not modelled: the model evaluates trees of any depth; the implementation's RecursionError for multistage stages nested >160 deep is known finding C14-F3",
     "Formula(<dict>) with a structure key that starts with an underscore (ValueError of Structured.__init__) or a non-string key (TypeError of the ** call) is API misuse outside the property; the model returns internal:ValueError for it and the theorem excludes it by hypothesis",
     "configuration errors (a feature-flag NAME or a parse target that does not exist: AttributeError / ValueError / KeyError) are modelled as internal outcomes and compared, but are not part of the property (the oracle is silent on them)",
@@ -1014,11 +1015,11 @@ def classify(c, o, why):
 
 
 LEVEL_TEXT = (
-    "Proof: the model keeps every Python operation that can raise a non-parsing exception as an explicit 'internal' outcome. Lean theorems (27) show, for ALL token lists and ALL operator tables, that every shunting-yard failure is the parsing error and that no disabled operator occurs in a returned tree; for ALL strings that tokenisation/rewriting fails only with the parsing error or with SyntaxError exactly when an embedded Python fragment is rejected by Python; and, for ALL strings, both intercept settings and ALL EIGHT feature-flag subsets, that get_terms yields a term structure, the parsing error or a fragment's SyntaxError — never an internal exception — with ONE exception that is characterised exactly: under MULTISTAGE the NotImplementedError of known finding C14-F1, which requires a multistage `~` with a multistage `~` inside its left argument (internal_error_only_nested_multistage; no_internal_error for MULTISTAGE off; no_internal_error_multistage_partial with the excluding hypothesis and nested_multistage_escapes as the negative witness). Two shape invariants of the index-based shunting-yard carry this (no structural operator below a non-structural one; a multistage `~` entry sits directly on a `[` entry). The same statement is proved for every other entry point that is modelled: parse(target=...) at every target level, get_tokens/get_ast (parse_targets_internal), the base class FormulaParser with its lazy token stream (base_parser_internal, base_parser_tree), and Formula(<specification tree>) with string, Term, Formula and non-specification leaves, lists, tuples, dictionaries and keyword structure of unbounded nesting (formula_spec_internal). Termination: every model function is structural recursion except two fuelled ones, both with sufficiency theorems — the sign-collapsing `while True` loop of resolve (resolve_loop_terminates: it breaks within len(token) iterations and equals the one-pass function the parser model uses) and Structured._merge (merge_fuel_suffices). Token.to_factor's KeyError/RuntimeError branches (read from the live package) are proved unreachable on every leaf of every returned tree (leaves_accepted_by_to_factor). The Python-fragment normaliser is modelled down to CPython: sanitize_variable_names (the repaired back-quote regular expression, whole back-quoted names, the words reserved by the code, ASCII base names, the alias-collision loop with keywords and reserved words) and the one-pass restoration of aliases are the Lean functions of Model/PyAlias.lean (shared with C15), wrapped by the try/except of sanitize_python_code (Model/SanitizeNames.lean) and run by the correspondence; the alias loop terminates for every alias table, environment, reserved set and name (alias_loop_terminates, from Proofs/C15Loop.lean), the normaliser fails only with SyntaxError (normaliser_fails_only_with_syntax_error) and the main theorem holds assuming only that ast.parse/ast.unparse raise SyntaxError, RecursionError, MemoryError or UnicodeError (internal_error_down_to_format_expr). The order in which graphlib evaluates the tree does not matter: every minimal failing node's error is the parsing error or the known NotImplementedError (first_error_any_order). The model is tied to the code by the differential correspondence on the streams listed in the rule, and the outcome-class oracle runs on the real entry points."
+    "Proof: the model keeps every Python operation that can raise a non-parsing exception as an explicit 'internal' outcome. Lean theorems (32) show, for ALL token lists and ALL operator tables, that every shunting-yard failure is the parsing error and that no disabled operator occurs in a returned tree; for ALL strings that tokenisation/rewriting fails only with the parsing error or with SyntaxError exactly when an embedded Python fragment is rejected by Python; and, for ALL strings, both intercept settings and ALL EIGHT feature-flag subsets, that get_terms yields a term structure, the parsing error or a fragment's SyntaxError — never an internal exception — with ONE exception that is characterised exactly: under MULTISTAGE the NotImplementedError of known finding C14-F1, which requires a multistage `~` with a multistage `~` inside its left argument (internal_error_only_nested_multistage; no_internal_error for MULTISTAGE off; no_internal_error_multistage_partial with the excluding hypothesis and nested_multistage_escapes as the negative witness). Two shape invariants of the index-based shunting-yard carry this (no structural operator below a non-structural one; a multistage `~` entry sits directly on a `[` entry). The same statement is proved for every other entry point that is modelled: parse(target=...) at every target level, get_tokens/get_ast (parse_targets_internal), the base class FormulaParser with its lazy token stream (base_parser_internal, base_parser_tree), and Formula(<specification tree>) with string, Term, Formula and non-specification leaves, lists, tuples, dictionaries and keyword structure of unbounded nesting (formula_spec_internal). Termination: every model function is structural recursion except two fuelled ones, both with sufficiency theorems — the sign-collapsing `while True` loop of resolve (resolve_loop_terminates: it breaks within len(token) iterations and equals the one-pass function the parser model uses) and Structured._merge (merge_fuel_suffices). Token.to_factor's KeyError/RuntimeError branches (read from the live package) are proved unreachable on every leaf of every returned tree (leaves_accepted_by_to_factor). The Python-fragment normaliser is modelled down to CPython: sanitize_variable_names (the repaired back-quote regular expression, whole back-quoted names, the words reserved by the code, ASCII base names, the alias-collision loop with keywords and reserved words) and the one-pass restoration of aliases are the Lean functions of Model/PyAlias.lean (shared with C15), wrapped by the try/except of sanitize_python_code (Model/SanitizeNames.lean) and run by the correspondence; the alias loop terminates for every alias table, environment, reserved set and name (alias_loop_terminates, from Proofs/C15Loop.lean), the normaliser fails only with SyntaxError (normaliser_fails_only_with_syntax_error) and the main theorem holds assuming only that ast.parse/ast.unparse raise SyntaxError, RecursionError, MemoryError or UnicodeError (internal_error_down_to_format_expr). The order in which graphlib evaluates the tree does not matter: every minimal failing node's error is the parsing error or the known NotImplementedError (first_error_any_order). The `**` / `^` operator: the code expands min(n, max(#terms, 1)) copies of its argument, the model n copies literally; the two ORDERED term sets are equal for every ordered set of terms with distinct factors and every exponent (power_capped), because S**(n+1) = S**n as lists — same terms, same factor order of each representative, same first-occurrence order — for every n >= max(#terms, 1) (power_stable; power_stable_any: without the assumption on the terms for n >= max(#terms, 2); the bound is sharp and the assumption necessary at n = 1, both with witnesses); the assumption is the invariant of Term.__init__, every non-structural operator of the model keeps it (plain_ops_keep_distinct_factors), and for base expressions of the arithmetic fragment it is discharged (power_capped_plain). The model is tied to the code by the differential correspondence on the streams listed in the rule, and the outcome-class oracle runs on the real entry points."
 )
 LEVEL_NOTE = (
     "Trusted: Lean kernel + the three standard axioms; the hand model validated by correspondence (outcome class AND value: term structures, tokens, syntax trees, formulas, resolved operator groups). "
     "Parameters, not verified: format_expr (ast.parse + ast.unparse) enters as per-case data and is assumed to raise only SyntaxError / RecursionError / MemoryError / UnicodeError — checked per case (any other class is reported as internal), exercised by the `degenerate` and `deepfrag` tables; Python's re classes \\w, \\s of the tokenizer and str.isspace. "
-    "Only observed (oracle, no theorem): exponents of two or more digits (`bigexp`; the code expands min(n, #terms) copies, the model n copies literally — their equality for n >= #terms is not proved in Lean, see the FULL (unproved) block of Props/C14.lean), parsers with a history (`reconfig`), the assignment form of structured specifications (`nested`/assign), the interpreter's recursion limit (C14-F3). "
+    "Only observed (oracle, no theorem): exponents of two or more digits on the implementation (`bigexp`; that the code's min(n, max(#terms, 1)) copies give the model's literal n-fold product is the theorem power_capped, but the model is not run on these inputs), parsers with a history (`reconfig`), the assignment form of structured specifications (`nested`/assign), the interpreter's recursion limit (C14-F3). "
     "Not covered: error MESSAGES (only the class), Token API not used by the parser (__lt__, split(before=), source_loc), repr/flatten of trees deeper than the recursion limit, custom operator resolvers."
 )
